@@ -438,6 +438,10 @@ func (fx *fnExec) svEq(a, b SV) Term {
 	case Sl:
 		switch y := b.(type) {
 		case Sl:
+			if y.Arr.S == "0" || x.Arr.S == "0" {
+				// comparison with nil: a slice is nil iff it has no backing array
+				return tEq(x.Arr, y.Arr)
+			}
 			return tAnd(tEq(x.Arr, y.Arr), tEq(x.Off, y.Off), tEq(x.Len, y.Len))
 		case Sc: // comparison with nil
 			return tEq(x.Arr, y.T)
